@@ -327,10 +327,15 @@ impl ZchState {
         }
         let mut is_prioritized_activation = false;
         if !matches!(activation, HasValue(..)) {
-            activation = self
+            let top_level = self
                 .zch_chords
                 .0
                 .ssm_get_or_is_subset_ksorted(self.zchd.zchd_input_keys.zchik_keys());
+            // Keys that can still complete a follow-up chord must not reset the state just
+            // because no top-level chord contains them.
+            if !(matches!(activation, IsSubset) && matches!(top_level, Neither)) {
+                activation = top_level;
+            }
         } else {
             is_prioritized_activation = true;
         }
